@@ -84,6 +84,8 @@ func main() {
 		runBFS(f, rep, r)
 	case "conc":
 		runConc(f, rep, r)
+	case "gcscan":
+		runGCScan(f, rep)
 	default:
 		vevid.Fatal("unknown part %q", part)
 	}
